@@ -202,6 +202,15 @@ def worker(ctx, job):
         rep = fsx.run(spec, ctx.dir)
         return rep, (t0, int(time.time() * 1000) + 2)
 
+    _raw_run_one = run_one
+
+    def run_one(faults):
+        out_ = _raw_run_one(faults)
+        if out_[0].get("status") == "timeout":
+            out_ = _raw_run_one(faults)
+            out_[0]["retried_after_timeout"] = True
+        return out_
+
     if job["kind"] == "probe":
         rep, window = run_one([])
         res["evals"] += 1
